@@ -10,6 +10,7 @@
     16 goroutines, the race detector) by bin/check C13, not proved. *)
 From Coq Require Import List NArith ZArith.
 From PQ Require Import Bytes MetaTypes Pool PoolProofs.
+From PQgen Require Import SourceFacts.
 Import ListNotations.
 
 Theorem C13_pool_indep :
@@ -29,3 +30,18 @@ Theorem C13_interleave_indep :
   run_solo St Call Out step pool' (sts i) (calls_of Call i sched).
 Proof. exact interleave_indep. Qed.
 Print Assumptions C13_interleave_indep.
+
+From Coq Require Import String.
+
+(** Source census of this run: the buffer pools are the only package-level
+    mutable state of package parquet ([fieldFuncs] is a read-only table) and of
+    the generated package ([par1] is the constant magic), every buffpool.Get()
+    is immediately followed by a deferred Put of the same buffer, and there is
+    no go statement.  These are the facts the granularity of the interleaving
+    theorem rests on; a new global, a non-deferred Put or a goroutine breaks
+    this obligation. *)
+Example C13_census_shared_state :
+  runtime_package_vars = ["buffpool"; "fieldFuncs"]%string /\
+  generated_package_vars = ["buffpool"; "par1"]%string /\
+  pool_gets_without_deferred_put = [] /\ go_statements = [].
+Proof. repeat split; reflexivity. Qed.
